@@ -66,9 +66,11 @@ def main():
             proof = dict(obligations=1, discharged=0, theorems=[], ok=False, error='build failed: ' + blog[-1500:])
         else:
             proof = vlib.coq_property(pid)
-            if a.tier == 'thorough' and proof['ok'] and hasattr(mod, 'COQCHK') and mod.COQCHK:
+            if a.tier == 'thorough' and proof['ok']:      # the independent checker re-checks the property's whole closure and lists its axioms
                 rc, o = vlib.sh(['coqchk', '-silent', '-o'] + vlib.COQ_INC + ['EIOProps.' + pid], 1500, cwd=vlib.COQ)
-                proof['coqchk'] = 'ok' if rc == 0 else 'FAILED: ' + o[-500:]
+                proof['coqchk'] = ('ok; axioms: ' + ('none' if '* Axioms: <none>' in o else 'SEE LOG ' + o[-300:])) if rc == 0 else 'FAILED: ' + o[-500:]
+                if rc == 0 and '* Axioms: <none>' not in o:
+                    rc = 1
                 if rc:
                     proof['ok'] = False
                     proof['error'] = 'coqchk: ' + o[-500:]
